@@ -103,7 +103,7 @@ def r2_input_resolution(ctx):
     r.check(len(gets) == 1, "validity/lookup", "each input's coin comes from relevant_coins[input]", "lookups: %d" % len(gets))
     vl = [l for l in q.loop_with_source(v, lambda s: True) if sig(l[3]) == "Iterator::enumerate($2.inputs)"]
     if gets and vl:
-        f = force(v, {("discr", gets[0][1]): 0})
+        f = force(v, {("discr", gets[0][1]): 0, gets[0][1]: V(0)})
         after = f.reach_from(gets[0][0])
         r.check(not any(x in after for x in vl[0][2]), "validity/missing=>err", "a missing coin ends validation with an error", "with the coin missing the input loop continues", v.where(gets[0][0]))
         r.check(bool(q.err_blocks(v, "NonexistentCoin")), "validity/err-variant", "Err(NonexistentCoin)", "no Err(NonexistentCoin) in check_tx_validity")
@@ -241,11 +241,11 @@ def r5_effects(ctx):
         o, i = enclosing(bi, "Iterator::enumerate(%s.outputs)" % EL)
         r.check(o is not None and i is not None, "outputs/in-loops", "inside (all transactions) × (all output indices)", "the insert is not inside the loops over all transactions and all of their outputs", b.where(bi))
         r.check(sig(e[2][1]) == CID, "outputs/id", "id = CoinID::new(txhash, i)", "id = %s" % sig(e[2][1]), b.where(bi))
-        r.check(sig(e[2][2]) == "(HashMap::get($3, %s) as Some).0" % CID, "outputs/data", "data = relevant_coins[id]", "data = %s" % sig(e[2][2])[:160], b.where(bi))
+        r.check(sig(e[2][2]) == "try(HashMap::get($3, %s))" % CID, "outputs/data", "data = relevant_coins[id]", "data = %s" % sig(e[2][2])[:160], b.where(bi))
         r.check(sig(q.novers(e[2][0])) == "next_state.coins", "outputs/tree", "into next_state.coins", "into %s" % sig(e[2][0]), b.where(bi))
         g = [(gb, ge) for gb, ge in q.call_exprs(b, "HashMap::get") if sig(ge) == "HashMap::get($3, %s)" % CID]
         if g and i is not None:
-            f = force(b, {("discr", g[0][1]): 1})
+            f = force(b, {("discr", g[0][1]): 1, g[0][1]: V(1)})
             wo = f.reach_from(g[0][0], avoid=[bi])
             r.check(not any(l_ in wo for l_ in i[2]), "outputs/present=>inserted", "a relevant output is always inserted", "a relevant output can be skipped", b.where(bi))
         if i is not None:
